@@ -29,11 +29,21 @@ const mod = sym.HeliosModule
 // proxyStubs redirects the reverse proxy to the harness model of it.
 var proxyStubs = map[string]string{
 	"(*net/http/httputil.ReverseProxy).ServeHTTP": mod + "/internal/loadbalancer.verifStubProxy",
-	"(*net/http.Client).Do": mod + "/internal/loadbalancer.verifClientDo",
+	"(*net/http.Client).Do":                       mod + "/internal/loadbalancer.verifClientDo",
+}
+
+// configStubs: LoadConfig runs for real except for the file system and the YAML parser.
+var configStubs = map[string]string{
+	"os.ReadFile":                mod + "/internal/config.verifReadFile",
+	"gopkg.in/yaml.v3.Unmarshal": mod + "/internal/config.verifUnmarshal",
 }
 
 func job(id, pkg, fn string, args ...int64) *sym.Job {
-	return &sym.Job{ID: id, Harness: mod + "/internal/" + pkg + "." + fn, Args: args, ValidatePaths: 2}
+	j := &sym.Job{ID: id, Harness: mod + "/internal/" + pkg + "." + fn, Args: args, ValidatePaths: 2}
+	if pkg == "config" {
+		j.Stubs = configStubs
+	}
+	return j
 }
 
 // arith marks a job as division/multiplication heavy: cross-check on z3 4.8.12
@@ -116,9 +126,11 @@ func propC09() *Prop {
 			}
 			js = append(js, job("C09h/cleanup", "ratelimiter", "VerifC09Cleanup"))
 			js = append(js, lbJob("C09f/gate[ServeHTTP + limiter + breaker]", "VerifC09Gate"))
-			js = append(js, threadJob(job("C09g/no-double-spend[2 threads, existing bucket]", "ratelimiter", "VerifC09Concurrent", 2, 1), 2))
-			js = append(js, threadJob(job("C09g/no-double-spend[2 threads, new client]", "ratelimiter", "VerifC09Concurrent", 2, 0), 2))
-			js = append(js, threadJob(job("C09g/no-double-spend[3 threads, existing bucket]", "ratelimiter", "VerifC09Concurrent", 3, 1), int(tierPick(tier, 1, 2))))
+			js = append(js, threadJob(job("C09g/no-double-spend[2 threads, existing bucket]", "ratelimiter", "VerifC09Concurrent", 2, 1, 2), 2))
+			js = append(js, threadJob(job("C09g/no-double-spend[2 threads, new client]", "ratelimiter", "VerifC09Concurrent", 2, 0, 2), 2))
+			js = append(js, threadJob(job("C09g/no-double-spend[2 threads, new client, max_tokens 1: more first requests than tokens]", "ratelimiter", "VerifC09Concurrent", 2, 0, 1), int(tierPick(tier, 2, 3))))
+			js = append(js, threadJob(job("C09g/no-double-spend[3 threads, new client, max_tokens 2]", "ratelimiter", "VerifC09Concurrent", 3, 0, 2), int(tierPick(tier, 1, 2))))
+			js = append(js, threadJob(job("C09g/no-double-spend[3 threads, existing bucket]", "ratelimiter", "VerifC09Concurrent", 3, 1, 2), int(tierPick(tier, 1, 2))))
 			for _, j := range js {
 				arith(j)
 			}
@@ -299,7 +311,12 @@ func propC06() *Prop {
 		ID: "C06", Title: "Client affinity (ip_hash) and minimal remapping (ip_hash_consistent)",
 		Jobs: func(tier string) []*sym.Job {
 			var js []*sym.Job
-			add := func(j *sym.Job) { j.RandomModels = 3000; j.LoopBound = 64; j.FeasTimeout = 5 * time.Second; js = append(js, j) }
+			add := func(j *sym.Job) {
+				j.RandomModels = 3000
+				j.LoopBound = 64
+				j.FeasTimeout = 5 * time.Second
+				js = append(js, j)
+			}
 			// unwinding bound derived from the code: j strictly increases by at least 1 per iteration
 			// (q >= 1), so the loop of jumpHash(key, n+1) runs at most n+1 times: U = n+3
 			for n := int64(1); n <= tierPick(tier, 4, 8); n++ {
@@ -332,6 +349,8 @@ func propC06() *Prop {
 					add(job(fmt.Sprintf("C06d/append[N=%d->%d,L=%d]", n, n+1, l), "loadbalancer", "VerifC06Append", n, l))
 				}
 			}
+			js = append(js, threadJob(lbJob("C06c/affinity-under-concurrent-requests[ip_hash,N=3]", "VerifC06AffinityConcurrent", 3, 3), int(tierPick(tier, 2, 3))))
+			js = append(js, threadJob(lbJob("C06c/affinity-under-concurrent-requests[ip_hash_consistent,N=3]", "VerifC06AffinityConcurrent", 4, 3), int(tierPick(tier, 2, 3))))
 			js = append(js, neg(job("C06c/negative-twin", "loadbalancer", "VerifC06NegAffinity")))
 			return js
 		},
@@ -440,6 +459,7 @@ func propC01() *Prop {
 			js = append(js, lbJob("C01c/no-rewriting-hooks", "VerifC03Timeouts"))
 			js = append(js, job("C01b/middleware-transparency", "logging", "VerifC01Middleware"))
 			js = append(js, mainJob("C01d/full-handler-stack[plugins -> middleware -> balancer -> scripted backend]", "VerifStack", 0, tierPick(tier, 2, 3), 0))
+			js = append(js, mainJob("C01d/full-handler-stack[backend sends 0..2 interim 103 responses with their own headers]", "VerifStack", 0, 1, 1))
 			return js
 		},
 		Assumptions: append([]string{"claimed for the Helios-owned layers between net/http and httputil.ReverseProxy only: the status-capturing responseWriter, RequestContextMiddleware, and the per-backend proxy construction; hop-by-hop handling, framing, HTTP/2 and the Transport are the Go standard library and are trusted", "the client connection is a recording ResponseWriter implementing net/http's documented contract (first final WriteHeader wins and freezes the header snapshot, Write/Flush imply 200, 1xx are interim)", "flush requests are issued through the real http.NewResponseController(...).Flush() as ReverseProxy does"}, commonAssumptions...),
@@ -487,13 +507,13 @@ func propC16() *Prop {
 				job("C16b/identifier-injectivity", "logging", "VerifC16Unique"),
 				job("C16b/uniqueness-across-requests[same client request ID]", "logging", "VerifC16TwoRequests"),
 				mainJob("C16c/every-response-path[full handler stack: proxied, 401, 413, 429, 502, 503]", "VerifStack", 3, 2, 0),
-				mainJob("C16c/every-response-path[backend may send an interim 103 first]", "VerifStack", 0, 1, 1),
+				mainJob("C16c/every-response-path[backend may send up to two interim 103 responses first]", "VerifStack", 0, 1, 1),
 				neg(job("C16b/negative-twin", "logging", "VerifC16NegUnique")),
 			}
 		},
 		Assumptions: append([]string{"crypto/rand.Read fills the buffer with arbitrary bytes and returns no error (documented never to fail on Linux); uniqueness across requests is reduced to: distinct 12-byte draws give distinct identifiers (injectivity, decided for all 2^192 pairs of draws)", "client-supplied ID values are what net/http's parser can deliver: 1..3 printable ASCII bytes without surrounding white space, or absent", "downstream handler: a backend stub, or http.Error with 429 / 503 / 413"}, commonAssumptions...),
-		Bounds:  map[string]string{"quick": "all 4 enabled/disabled combinations x default/custom header names x client value absent or any 1..3 printable bytes x 4 downstream response kinds", "thorough": "same"},
-		Outside: []string{"10^5 concurrent generations (reduced to injectivity + crypto/rand's contract)", "the example request-id plugin overriding the middleware's value", "timestamp fallback when crypto/rand fails"},
+		Bounds:      map[string]string{"quick": "all 4 enabled/disabled combinations x default/custom header names x client value absent or any 1..3 printable bytes x 4 downstream response kinds", "thorough": "same"},
+		Outside:     []string{"10^5 concurrent generations (reduced to injectivity + crypto/rand's contract)", "the example request-id plugin overriding the middleware's value", "timestamp fallback when crypto/rand fails"},
 	}
 }
 
@@ -541,7 +561,7 @@ func propC15() *Prop {
 			}
 			return js
 		},
-		Patches: []sym.SourcePatch{{File: "internal/plugins/compression.go", Old: "MaxCompressionBufferSize = 10 * 1024 * 1024", New: "MaxCompressionBufferSize = 8", Why: "the 10 MiB buffering cap is scaled to 8 bytes so that the streaming-fallback logic is reachable with small symbolic bodies; the logic compares sizes with the constant and does not otherwise depend on its value"}},
+		Patches:     []sym.SourcePatch{{File: "internal/plugins/compression.go", Old: "MaxCompressionBufferSize = 10 * 1024 * 1024", New: "MaxCompressionBufferSize = 8", Why: "the 10 MiB buffering cap is scaled to 8 bytes so that the streaming-fallback logic is reachable with small symbolic bodies; the logic compares sizes with the constant and does not otherwise depend on its value"}},
 		Assumptions: append([]string{"compress/gzip is an abstract encoder: NewWriterLevel fails iff level is outside [-2,9]; Close emits exactly one opaque token carrying the buffered content (DEFLATE itself is not encoded); natively the real gzip runs and the harness decodes with gzip.NewReader", "the client sees the header snapshot frozen at the first WriteHeader (net/http's documented contract), the body bytes, and the status", "bytes.Buffer runs from its real SSA body"}, commonAssumptions...),
 		Bounds: map[string]string{
 			"quick":    "9 Accept-Encoding spellings x 4 content types x already-encoded or not x declared Content-Length or not x explicit/implicit WriteHeader (status 200..599) x compression levels -1..9 x min_size 0..4 x bodies written in <= 2 writes of 0..2 bytes",
@@ -565,6 +585,11 @@ func propC17() *Prop {
 			}
 			for k := int64(1); k <= tierPick(tier, 2, 3); k++ {
 				js = append(js, job(fmt.Sprintf("C17b/fail-closed[k=%d]", k), "plugins", "VerifC17FailClosed", k))
+			}
+			for l := int64(0); l <= tierPick(tier, 2, 3); l++ {
+				for hl := int64(0); hl <= tierPick(tier, 2, 3); hl++ {
+					js = append(js, job(fmt.Sprintf("C17b/custom-auth-gate[every configured key of %d bytes x no key or every presented key of %d bytes]", l, hl), "plugins", "VerifC17AuthGate", l, hl))
+				}
 			}
 			js = append(js, mainJob("C17b/buildHandler-propagates-the-error", "VerifC18Starts", 0))
 			js = append(js, mainJob("C17a/rejection-through-the-real-handler-stack", "VerifStack", 0, 2, 0))
@@ -632,11 +657,12 @@ func propC10() *Prop {
 				j.MaxPaths = 3000000
 				js = append(js, j)
 			}
+			js = append(js, job("C10b/filter-through-the-public-constructor[7 list entries x 7 x 10 peer spellings incl. IPv4-mapped and zoned IPv6]", "adminapi", "VerifC10Catalogue"))
 			js = append(js, job("C10c/header-independence", "adminapi", "VerifC10Headers"))
 			js = append(js, job("C10d/fail-closed", "adminapi", "VerifC10FailClosed"))
 			return js
 		},
-		Assumptions: append([]string{"http.ServeMux is modelled as exact-path dispatch over the registered patterns (Helios registers only exact, slash-free-suffix patterns); encoding/json Decode/Encode are structure-only models (decode fills the target struct from the concrete JSON text; encode writes an opaque body)", "net.ParseIP / ParseCIDR on concrete text are evaluated natively; a symbolic peer is a marker string that the ParseIP model resolves to symbolic address bytes of the documented shape (16-byte IPv4-in-IPv6, 16-byte IPv6, or nil); IPNet.Contains and IP.To4 run from their real SSA bodies", "networks: IPv4 prefixes {0,8,24,31,32}, IPv6 prefixes {0,64,127,128}, arbitrary base bytes (IPv6: six symbolic bytes, the rest zero); IPv4-mapped IPv6 network entries excluded (Go treats them as the embedded IPv4 network)", "the balancer behind the API is built by the real NewLoadBalancer"}, commonAssumptions...),
+		Assumptions: append([]string{"http.ServeMux is modelled as exact-path dispatch over the registered patterns (Helios registers only exact, slash-free-suffix patterns); encoding/json Decode/Encode are structure-only models (decode fills the target struct from the concrete JSON text; encode writes an opaque body)", "net.ParseIP / ParseCIDR on concrete text are evaluated natively; a symbolic peer is a marker string that the ParseIP model resolves to symbolic address bytes of the documented shape (16-byte IPv4-in-IPv6, 16-byte IPv6, or nil); IPNet.Contains and IP.To4 run from their real SSA bodies", "networks: IPv4 prefixes {0,8,24,31,32}, IPv6 prefixes {0,64,127,128}, arbitrary base bytes (IPv6: six symbolic bytes, the rest zero); IPv4-mapped IPv6 network entries excluded (Go treats them as the embedded IPv4 network)", "the balancer behind the API is built by the real NewLoadBalancer", "net/netip values (if the code under test uses them) are concrete and evaluated by the real library through a reflective bridge"}, commonAssumptions...),
 		Bounds: map[string]string{
 			"quick":    "Authorization values of 0/6/7/9/10/11 arbitrary bytes (token is 3 bytes: the exact value has 10), present/absent, optional valid second value, 7 paths x 3 methods x 4 bodies; filter lists up to 2 entries in total; peers IPv4 / IPv6 / IPv4-mapped / unparsable",
 			"thorough": "more Authorization lengths; lists up to 2+2",
@@ -655,7 +681,7 @@ func propC11() *Prop {
 				j.MaxPaths = 3000000
 				js = append(js, j)
 			}
-			for i, n := range []string{"SetStrategy || AddBackend", "SetStrategy || RemoveBackend", "AddBackend || RemoveBackend", "SetStrategy || SetStrategy"} {
+			for i, n := range []string{"SetStrategy || AddBackend", "SetStrategy || RemoveBackend", "AddBackend || RemoveBackend", "SetStrategy || SetStrategy", "ListBackends || RemoveBackend (4 backends)", "ListBackends || AddBackend (4 backends)"} {
 				js = append(js, threadJob(lbJob("C11b/atomicity["+n+"]", "VerifC11Atomic", int64(i)), int(tierPick(tier, 2, 3))))
 			}
 			return js
@@ -680,7 +706,7 @@ func propC20() *Prop {
 				js = append(js, j)
 			}
 			js = append(js, lbJob("C20b/hijack[balancer writer]", "VerifC20Hijack"))
-			for i, n := range []string{"cleanup || Put", "Get || Get", "Put || Shutdown"} {
+			for i, n := range []string{"cleanup || Put", "Get || Get", "Put || Shutdown", "first Put of a new backend || Shutdown"} {
 				js = append(js, threadJob(lbJob("C20c/concurrent["+n+"]", "VerifC20Concurrent", int64(i)), int(tierPick(tier, 2, 3))))
 			}
 			for k := int64(1); k <= 3; k++ {
@@ -711,6 +737,8 @@ var pairNames = []string{
 	"Execute || Execute (LB callback installed)", "Execute || State+Counts", "pool Get || Put", "pool Put || cleanup", "pool Get || Shutdown", "AddBackend || NextBackend+ListBackends",
 	"RemoveBackend || NextBackend+ListBackends", "SetStrategy || NextBackend+ListBackends", "IsBackendHealthy(expiry) || MarkBackendUnhealthy", "ServeHTTP || ServeHTTP", "RecordRequest/Response || GetMetrics",
 	"ListBackends || MarkBackendUnhealthy (after an expired window)", "Execute || Execute inside a half-open episode (max_requests 3)",
+	"NextBackend || NextBackend [round_robin]", "NextBackend || NextBackend [least_connections]", "NextBackend || NextBackend [weighted_round_robin]",
+	"NextBackend || NextBackend [ip_hash]", "NextBackend || NextBackend [ip_hash_consistent]",
 }
 
 var metricsOps = []string{"GetMetrics", "RecordRequest", "RecordResponse", "RecordBackendRequest", "UpdateBackendHealth", "UpdateBackendConnections", "SyncBackendConnections", "RecordRateLimitedRequest", "UpdateCircuitBreakerState"}
@@ -724,7 +752,7 @@ func propC12() *Prop {
 			for i, n := range pairNames {
 				js = append(js, threadJob(lbJob(fmt.Sprintf("C12/pair[%s]", n), "VerifC12Pair", int64(i)), int(tierPick(tier, 2, 3))))
 			}
-			for i, n := range []string{"pool cleanup || Put", "pool Get || Get", "pool Put || Shutdown"} {
+			for i, n := range []string{"pool cleanup || Put", "pool Get || Get", "pool Put || Shutdown", "pool first Put of a new backend || Shutdown"} {
 				js = append(js, threadJob(lbJob("C12/pair["+n+" (real constructor)]", "VerifC20Concurrent", int64(i)), int(tierPick(tier, 2, 3))))
 			}
 			for i, a := range metricsOps {
@@ -781,7 +809,7 @@ func propC19() *Prop {
 			return js
 		},
 		Assumptions: append([]string{"claimed for the balancer side only: LoadBalancer.Stop, the real health-check goroutine (startHealthChecks -> startActiveHealthChecks: initial round, ticker loop, probe goroutines; the ticker fires at most `ticks` times, at any point of the schedule, and a select with several ready cases picks any of them), and the WebSocket pool's Shutdown; http.Server.Shutdown, request draining, signals and the shutdown-timeout bound are net/http / OS and not encodable", "the real performHealthCheck runs; (*http.Client).Do is replaced by a backend model that counts the probe, yields and then refuses the connection, answers 200, or never answers (holds the probe until the request's context is done or the client's timeout fires); natively the real client dials a local test server that behaves the same way", "contexts are models: cancellation propagates to derived contexts; a deadline expires when virtual time reaches it, and virtual time passes only when every thread is blocked (it jumps to the earliest pending deadline); shutdown timeout 1..2 s, probe timeout 1 ms..3 s (ranges kept small so that a counterexample replays natively in real time)"}, commonAssumptions...),
-		Bounds:  map[string]string{"quick": "1-2 backends, 2 idle pooled connections, 2 top-level threads + probe goroutines, <= 2 pre-emptions", "thorough": "<= 3 pre-emptions"},
-		Outside: []string{"http.Server.Shutdown / in-flight client requests / SIGTERM handling", "more than 1 (quick) / 2 (thorough) ticker firings during shutdown"},
+		Bounds:      map[string]string{"quick": "1-2 backends, 2 idle pooled connections, 2 top-level threads + probe goroutines, <= 2 pre-emptions", "thorough": "<= 3 pre-emptions"},
+		Outside:     []string{"http.Server.Shutdown / in-flight client requests / SIGTERM handling", "more than 1 (quick) / 2 (thorough) ticker firings during shutdown"},
 	}
 }
